@@ -116,6 +116,28 @@ func c17AnyURL(r *rng) (u string, wellFormed bool) {
 		h := c17Host(r)
 
 		return "http://" + strings.Repeat("a", 4096-7-r.n(12)) + "." + h + "/x", false
+	case 5:
+		if !r.chance(1, 2) {
+			u, _ = c17WellFormed(r)
+
+			return u, true
+		}
+		// longer than the cap, with letters whose lower-case form has another UTF-8 length before the cap and a
+		// multi-byte rune straddling it: "lower-case of the capped URL" and "cap of the lower-cased URL" differ
+		u, _ = c17WellFormed(r)
+		special := []string{"\u212a", "\u0130", "\u023a", "\u212b", "\u00c4"}
+		var sb strings.Builder
+		sb.WriteString(u + "/")
+		for sb.Len() < 4096+r.n(40) {
+			if r.chance(1, 30) {
+				sb.WriteString(pick(r, special))
+			} else {
+				sb.WriteByte("abcXYZ/-_0"[r.n(10)])
+			}
+		}
+		sb.WriteString(pick(r, special) + "/adbanner")
+
+		return sb.String(), false
 	case 4:
 		// host with empty labels (outside the hostname domain of the property)
 		h := c17Host(r)
@@ -198,7 +220,10 @@ func genC17(r *rng, n int, w *bufio.Writer) {
 			fmt.Fprintf(w, "assert c17.hostname-neturl %s = %s ## %q: url.Parse gives %q, request has %q\n", wb(clip(u)), wbool(ok), clip(u), hostOf(pu), q.Hostname)
 			ok = q.Domain == refDomainGo(q.Hostname)
 			fmt.Fprintf(w, "assert c17.domain-psl %s = %s ## %q: publicsuffix gives %q, request has %q\n", wb(clip(q.Hostname)), wbool(ok), q.Hostname, refDomainGo(q.Hostname), q.Domain)
-			ok = q.URLLowerCase == strings.ToLower(capStr(u)) && q.URL == capStr(u)
+		}
+		{
+			// for EVERY url: the lower-cased URL is the lower-casing of the capped URL
+			ok := q.URLLowerCase == strings.ToLower(capStr(u)) && q.URL == capStr(u)
 			fmt.Fprintf(w, "assert c17.lower-capped %s = %s ## %q\n", wb(clip(u)), wbool(ok), clip(u))
 		}
 		if wf && swf && src != "" {
